@@ -54,7 +54,7 @@ PROBES = [
     "frame_not_dividing_read_two_reads", "truncate_in_first_read", "truncate_on_read_boundary", "truncate_mid_frame",
     "truncate_zero_data", "big_endian", "header_2048_plus", "raw_codes_requested", "g711_all_codes", "multi_read",
     "bytesio", "fileobj", "suffix_inference", "magic_bytes_at_read_boundary", "frame_exceeds_read_size", "pipe",
-    "second_decode",
+    "second_decode", "data_start_on_read_size_multiple",
 ]
 FAULT_KINDS = ["truncate", "short_file", "bad_magic", "small_hdrsize"]
 EXHAUSTIVE = {}
@@ -85,7 +85,9 @@ def generate(rng, tier, k):
     else:
         n = rng.randrange(1, 3 * per + 5)
     scn = {
-        "coding": coding, "order": order, "channels": ch, "n": n, "hdr_blocks": rng.choice((1, 1, 1, 2, 3, 4)),
+        "coding": coding, "order": order, "channels": ch, "n": n,
+        # header sizes incl. ones that make the data start exactly on a multiple of the 16 KiB read size
+        "hdr_blocks": rng.choice((1, 1, 1, 2, 3, 4)) if rng.random() < 0.95 else rng.choice((15, 16, 16, 17, 32)),
         "order_seed": rng.randrange(1 << 20), "extra": rng.randrange(0, 6),
         "coding_field": True if coding != "pcm" else rng.random() < 0.6,
         "seed": rng.randrange(1 << 30), "access": rng.choice(("path", "suffix", "fileobj", "bytesio", "bytesio", "pipe")),
@@ -237,6 +239,8 @@ def execute(scn, keep_trace=False):
         res.probe("big_endian")
     if scn.get("hdr_blocks", 1) >= 2:
         res.probe("header_2048_plus")
+    if scn.get("hdr_blocks", 1) % 16 == 0:
+        res.probe("data_start_on_read_size_multiple")
     if scn.get("dtype_req") == "uint8":
         res.probe("raw_codes_requested")
     if scn.get("all_codes"):
